@@ -596,6 +596,168 @@ func modelSource(c Case) string {
 var lastEvalBytes []byte
 var lastEvalBytesCopy string
 
+// runCase: the implementation side of one case (in the worker process, or here with -noisolation)
+func runCase(c Case) (Result, string) {
+	switch c.Kind {
+	case "parse":
+		return runParseCase(c)
+	case "history":
+		return runHistoryCase(c), ""
+	case "ext":
+		return runExtCase(c)
+	case "reghistory":
+		return runHistoryProcess(os.Args[0], c)
+	default:
+		return runEvalCase(c)
+	}
+}
+
+type workerAnswer struct {
+	R    Result `json:"r"`
+	Line string `json:"line"`
+	Hung bool   `json:"hung"`
+}
+
+// runWorker: the child process. One JSON case per input line, one JSON answer per output line.
+// After an evaluation that the in-process watchdog gave up on, the worker asks to be replaced
+// (the abandoned goroutine may still be looping or allocating).
+func runWorker() {
+	sc := bufio.NewScanner(os.Stdin)
+	sc.Buffer(make([]byte, 1<<20), 1<<28)
+	w := bufio.NewWriter(os.Stdout)
+	for sc.Scan() {
+		var c Case
+		if err := json.Unmarshal(sc.Bytes(), &c); err != nil {
+			continue
+		}
+		before := hangs
+		r, line := runCase(c)
+		b, _ := json.Marshal(workerAnswer{R: r, Line: line, Hung: hangs > before})
+		w.Write(b)
+		w.WriteByte('\n')
+		w.Flush()
+		if hangs > before {
+			os.Exit(0)
+		}
+	}
+}
+
+// workerPool: the parent side. The implementation runs in a child process under an address-space
+// limit; a child that does not answer in time, dies (fatal error, out of memory, stack overflow) or
+// reports a hang is killed and replaced, and the case is recorded as hung / crashed.
+type workerPool struct {
+	cmd   *exec.Cmd
+	in    *bufio.Writer
+	out   *bufio.Scanner
+	inC   interface{ Close() error }
+	kills int
+}
+
+var isolated workerPool
+
+func (p *workerPool) start() bool {
+	self, _ := os.Executable()
+	lim := "16000000"
+	p.cmd = exec.Command("sh", "-c", "ulimit -v "+lim+" 2>/dev/null; exec \"$0\" -worker -timeout_ms "+strconv.Itoa(int(evalTimeout/time.Millisecond)), self)
+	stdin, err1 := p.cmd.StdinPipe()
+	stdout, err2 := p.cmd.StdoutPipe()
+	p.cmd.Stderr = nil
+	if err1 != nil || err2 != nil || p.cmd.Start() != nil {
+		return false
+	}
+	p.inC = stdin
+	p.in = bufio.NewWriter(stdin)
+	p.out = bufio.NewScanner(stdout)
+	p.out.Buffer(make([]byte, 1<<20), 1<<28)
+	return true
+}
+
+func (p *workerPool) kill() {
+	if p.cmd != nil && p.cmd.Process != nil {
+		p.cmd.Process.Kill()
+		p.cmd.Wait()
+	}
+	p.cmd = nil
+}
+
+func (p *workerPool) stop() {
+	if p.cmd != nil {
+		p.inC.Close()
+		done := make(chan struct{})
+		go func() { p.cmd.Wait(); close(done) }()
+		select {
+		case <-done:
+		case <-time.After(2 * time.Second):
+			p.cmd.Process.Kill()
+		}
+		p.cmd = nil
+	}
+}
+
+func (p *workerPool) run(c Case, raw []byte) (Result, string) {
+	if p.cmd == nil && !p.start() {
+		return runCase(c)
+	}
+	p.in.Write(raw)
+	p.in.WriteByte('\n')
+	if p.in.Flush() != nil {
+		p.kill()
+		p.kills++
+		return crashedResult(c, "X the worker process died before the case"), ""
+	}
+	type ans struct {
+		ok   bool
+		line []byte
+	}
+	ch := make(chan ans, 1)
+	out := p.out
+	go func() {
+		if out.Scan() {
+			ch <- ans{true, append([]byte(nil), out.Bytes()...)}
+		} else {
+			ch <- ans{false, nil}
+		}
+	}()
+	// the worker's own watchdog allows evalTimeout per evaluation; a case makes a handful of them
+	limit := 12*evalTimeout + 20*time.Second
+	select {
+	case a := <-ch:
+		if !a.ok {
+			p.kill()
+			p.kills++
+			return crashedResult(c, "P "+wS("the process evaluating this case died (fatal error, out of memory or stack overflow)")), ""
+		}
+		var wa workerAnswer
+		if err := json.Unmarshal(a.line, &wa); err != nil {
+			p.kill()
+			p.kills++
+			return crashedResult(c, "X bad worker answer"), ""
+		}
+		if wa.Hung {
+			hangs++
+			p.kill() // it exits by itself; make sure
+		}
+		return wa.R, wa.Line
+	case <-time.After(limit):
+		p.kill()
+		p.kills++
+		hangs++
+		return crashedResult(c, "H"), ""
+	}
+}
+
+func crashedResult(c Case, wire string) Result {
+	r := Result{ID: c.ID, Direct: map[string]string{}}
+	switch c.Kind {
+	case "parse", "ext":
+		r.Impl = wire
+	default:
+		r.Compile = "ok"
+		r.Impl = wire
+	}
+	return r
+}
+
 // ---- oracle ----
 var reCache = map[string]*regexp.Regexp{}
 var reMu sync.Mutex
@@ -773,6 +935,8 @@ func main() {
 	tmo := flag.Int("timeout_ms", 5000, "per-evaluation watchdog")
 	tables := flag.String("tables", "", "regenerate coq/Gen/*.v into this directory and exit")
 	onehist := flag.String("onehistory", "", "run one registry history in this process and exit")
+	worker := flag.Bool("worker", false, "internal: run cases from stdin, one answer line per case (used by the parent to isolate the implementation)")
+	noiso := flag.Bool("noisolation", false, "run the implementation in this process (no worker)")
 	flag.Parse()
 	if *onehist != "" {
 		runOneHistory(*onehist)
@@ -786,6 +950,10 @@ func main() {
 		return
 	}
 	evalTimeout = time.Duration(*tmo) * time.Millisecond
+	if *worker {
+		runWorker()
+		return
+	}
 
 	f, err := os.Open(*in)
 	if err != nil {
@@ -809,26 +977,18 @@ func main() {
 		}
 		var r Result
 		var line string
+		if *noiso || c.Kind == "reghistory" {
+			r, line = runCase(c)
+		} else {
+			r, line = isolated.run(c, sc.Bytes())
+		}
 		switch c.Kind {
-		case "parse":
-			r, line = runParseCase(c)
+		case "parse", "ext", "reghistory":
 			if line != "" {
 				plines[c.ID] = line
 			}
 		case "history":
-			r = runHistoryCase(c)
-		case "ext":
-			r, line = runExtCase(c)
-			if line != "" {
-				plines[c.ID] = line
-			}
-		case "reghistory":
-			r, line = runHistoryProcess(os.Args[0], c)
-			if line != "" {
-				plines[c.ID] = line
-			}
 		default:
-			r, line = runEvalCase(c)
 			if line != "" {
 				lines[c.ID] = line
 			}
@@ -838,11 +998,12 @@ func main() {
 		}
 		rr := r
 		results = append(results, &rr)
-		if hangs > 16 {
+		if hangs > 16 || isolated.kills > 16 {
 			fmt.Fprintln(os.Stderr, "too many hung evaluations; stopping early")
 			break
 		}
 	}
+	isolated.stop()
 	if *model != "" {
 		// end to end: the model parses the source text itself and evaluates its own tree
 		sfinal, _ := runModel(*model, "parse", srclines, *shards)
